@@ -1692,7 +1692,6 @@ func runImmutable(p *Program, c *Collector, im ImmutableSpec) {
 
 func regexpCompile(pat string) (*regexp.Regexp, error) { return regexp.Compile(pat) }
 
-
 // ---------------------------------------------------------------------------------------------
 // pre-sized result with conditional fill: make([]T, n) followed by out[i] = v on only some iterations leaves zero-valued
 // phantom entries in the result (append-based collection does not).
@@ -1764,7 +1763,6 @@ func runPresizedHoles(p *Program, c *Collector, a FuncRuleSpec) {
 		}
 	}
 }
-
 
 // ---------------------------------------------------------------------------------------------
 // double registration: a helper appends a record to a container of the object it is given AND returns that record; a caller
@@ -2055,7 +2053,6 @@ func runDoubleRegistration(p *Program, c *Collector, a FuncRuleSpec) {
 	}
 }
 
-
 // ---------------------------------------------------------------------------------------------
 // maps keyed by a method's name: methods are identified by (type, name) only, so overloads share a key. A store inside the
 // loop over a type's Functions must therefore accumulate (m[k] = append(m[k], …), m[k]++) or be idempotent (the value is
@@ -2129,7 +2126,6 @@ func runMethodKeyed(p *Program, c *Collector, a FuncRuleSpec) {
 	}
 }
 
-
 // ---------------------------------------------------------------------------------------------
 // dotted names: a simple name is looked up among full names (the imports of a file, the classes of the project) by suffix.
 // The suffix must start at a segment boundary — strings.HasSuffix(full, "."+name) — otherwise `Helper` also matches
@@ -2178,7 +2174,6 @@ func runDottedSuffix(p *Program, c *Collector, a FuncRuleSpec) {
 		c.Ob(a.Props, "E7.dotted-suffix", "dottedsuffix:"+strings.Join(a.Funcs, ","), Undecided, a.What+": no suffix lookup found (anchor lost)", "", false)
 	}
 }
-
 
 // ---------------------------------------------------------------------------------------------
 // edge closure: a graph builder that collects relations whose targets come from the input (implemented interfaces, superclass,
@@ -2260,7 +2255,32 @@ func runEdgeClosure(p *Program, c *Collector, ec EdgeClosureSpec) {
 				}
 			}
 		}
-		if rangesRel && deletes && testsNode {
+		// the other spelling: copy the relations whose target is a node into a new map, which then replaces the field
+		rebuilds := false
+		if rangesRel && testsNode && !deletes {
+			for b := range loop {
+				for _, in := range b.Instrs {
+					mu, ok := in.(*ssa.MapUpdate)
+					if !ok {
+						continue
+					}
+					mm, isMake := mu.Map.(*ssa.MakeMap)
+					if !isMake || mm.Referrers() == nil {
+						continue
+					}
+					for _, r := range *mm.Referrers() {
+						if st, ok := r.(*ssa.Store); ok && st.Val == ssa.Value(mm) {
+							if fa, ok := st.Addr.(*ssa.FieldAddr); ok {
+								if n, _ := fieldOf(fa.X.Type(), fa.Field); n == ec.Relations && h.Dominates(st.Block()) && !loop[st.Block()] {
+									rebuilds = true
+								}
+							}
+						}
+					}
+				}
+			}
+		}
+		if rangesRel && (deletes || rebuilds) && testsNode {
 			filter = h
 		}
 	}
@@ -2303,7 +2323,6 @@ func naturalLoopOf(fn *ssa.Function, h *ssa.BasicBlock) map[*ssa.BasicBlock]bool
 	}
 	return map[*ssa.BasicBlock]bool{}
 }
-
 
 // ---------------------------------------------------------------------------------------------
 // nil-able package-level pointers: a pointer variable that some function of the group sets to nil ("no current class") may be
@@ -2357,8 +2376,9 @@ func runNilableGlobals(p *Program, c *Collector, a FuncRuleSpec) {
 				var cs []*Sym
 				conjuncts(sf.pathCond(b), &cs)
 				want := "(global(" + p.GlobalKey(g) + ") != nil)"
+				wantNeg := "!((global(" + p.GlobalKey(g) + ") == nil))"
 				for _, cj := range cs {
-					if cj.String() == want {
+					if str := cj.String(); str == want || str == wantNeg {
 						guarded = true
 					}
 				}
@@ -2388,7 +2408,6 @@ func runNilableGlobals(p *Program, c *Collector, a FuncRuleSpec) {
 		c.Ob(a.Props, "E7.nilable-global", "nilable:"+strings.Join(a.Funcs, ","), Discharged, a.What+": no package-level pointer that is ever set to nil is dereferenced", "", true)
 	}
 }
-
 
 // ---------------------------------------------------------------------------------------------
 // cutset or prefix: strings.TrimLeft / TrimRight / Trim remove every leading (trailing) character that occurs in their
@@ -2424,7 +2443,6 @@ func runTrimCutset(p *Program, c *Collector, a FuncRuleSpec) {
 		c.Ob(a.Props, "E7.trim-cutset", "trimcutset:"+strings.Join(a.Funcs, ","), Discharged, a.What+": no cutset trimming in these functions", "", true)
 	}
 }
-
 
 // ---------------------------------------------------------------------------------------------
 // decoding into a package-level variable: encoding/json fills existing slice elements and map entries in place, so
